@@ -17,7 +17,15 @@ func ZZ_C06_VolumeRevert() {
 	wo, rw := e.countMode(types.WO), e.countMode(types.RW)
 	feBefore := e.fe.state
 	downs := e.fe.shutdowns
-	err := c.Revert("s1")
+	for i := 0; i < e.n; i++ {
+		zzmodel.Replicas[zzAddrs[i]].Chain = []string{"volume-head-002.img", "volume-snap-s2.img", "volume-snap-s1.img", "volume-snap-s1.img.img"}
+	}
+	// the API takes the snapshot's name; its disk is volume-snap-<name>.img, whatever the
+	// name looks like
+	name := zzPick("name", "s1", "s1.img", "s2", "volume-snap-s1", "volume-snap-s1.img", "nosuch", "")
+	want := "volume-snap-" + name + ".img"
+	exists := name == "s1" || name == "s1.img" || name == "s2"
+	err := c.Revert(name)
 	zzAssert(zzLockDepth(&c.RWMutex) == 0, "C06.volume-revert.lock-left-held")
 	zzSettle()
 	reverted := 0
@@ -28,7 +36,7 @@ func ZZ_C06_VolumeRevert() {
 		}
 		reverted += len(m.RevertedTo)
 		for _, n := range m.RevertedTo {
-			zzAssert(n == "volume-snap-s1.img", "C06.volume-revert.replica-reverted-to-another-snapshot")
+			zzAssert(n == want, "C06.volume-revert.replica-reverted-to-another-snapshot-than-the-one-named")
 		}
 		zzAssert(len(m.RevertedTo) <= 1, "C06.volume-revert.replica-reverted-twice")
 	}
@@ -53,6 +61,10 @@ func ZZ_C06_VolumeRevert() {
 		if err == nil {
 			zzAssert(len(m.RevertedTo) == 1, "C06.volume-revert.accepted-but-in-service-replica-did-not-revert")
 		}
+	}
+	if !exists {
+		zzReach("C06.volume-revert.unknown-name")
+		zzAssert(err != nil && reverted == 0, "C06.volume-revert.unknown-snapshot-name-accepted")
 	}
 	if err == nil {
 		zzReach("C06.volume-revert.accepted")
